@@ -12,7 +12,7 @@ RULE = ("IPv4: every B in 0..32 with default, empty, nested, overlapping and lon
 def check_case(ctx, c, out):
     w = ipgen.case_width(c)
     B = int(c[1]) if c[0] != "base" else int(c[2])
-    nets = (ipref.nets_of(c[3]) + ipref.nets_of(c[4])) if c[0] == "ip4" else []
+    nets = ipref.nets_of(c[3]) if c[0] == "ip4" else []   # the preserved PREFIX list only (preserved networks are C05)
     ops, res = ipgen.ops_of(c), out.split(" ")
     nt = 0
     if len(ops) != len(res):
@@ -46,7 +46,7 @@ def project(c, out):
     """per request: membership of the image in every configured network, its trailing B bits, its leading bits (for host-bit twins)"""
     w = ipgen.case_width(c)
     B = int(c[1]) if c[0] != "base" else int(c[2])
-    nets = (ipref.nets_of(c[3]) + ipref.nets_of(c[4])) if c[0] == "ip4" else []
+    nets = ipref.nets_of(c[3]) if c[0] == "ip4" else []   # the preserved PREFIX list only (preserved networks are C05)
     ops, res = ipgen.ops_of(c), out.split(" ")
     if len(ops) != len(res) or not all(r.isdigit() for r in res):
         return "ERR"
